@@ -174,6 +174,10 @@ class Ctx:
             # single-worker runs (trace validation, behaviour generation) are started many at a time: without a cap every JVM
             # may grow to a quarter of the machine's memory and the kernel kills one of them
             heap = "4g"
+        if not heap:
+            # the JVM default (a quarter of the machine, and as much again off-heap for TLC's fingerprint set) is far more than any
+            # model here needs and invites the kernel's OOM killer when several checks run at once
+            heap = "8g"
         if heap:
             jopts.append("-Xmx%s" % heap)
         if deque:
